@@ -124,7 +124,7 @@ func (vc *FuncVC) addUnreachable(st *State, kind, name string, tags []string) {
 
 func (vc *FuncVC) addCover(st *State, name string) {
 	o := &Oblig{Name: vc.name + "/" + name, Func: vc.name, Kind: "cover", Goal: "true",
-		PC: st.pc[:len(st.pc):len(st.pc)], Expect: "sat"}
+		PC: st.pc[:len(st.pc):len(st.pc)], Expect: "sat", Trace: append([]string(nil), st.trace...)}
 	vc.obligs = append(vc.obligs, o)
 }
 
@@ -217,7 +217,7 @@ func describeValue(v ssa.Value) string {
 			return "field " + name + "." + st.Underlying().(*types.Struct).Field(fa.Field).Name()
 		}
 		if ia, ok := x.X.(*ssa.IndexAddr); ok {
-			return "elem " + describeValue(ia.X)
+			return "elem " + strings.TrimPrefix(describeValue(ia.X), "var ")
 		}
 		return "load"
 	case *ssa.Parameter:
